@@ -284,7 +284,7 @@ def run(ctx):
     st = explore(base, ["ans", "noise"], 0, sink, name="runs/b0")
     nz = [job(D, "lin", m, "sphere_in", seeds[0], 62, nfs=nfs) for D in ((1,) if q else (1, 2)) for m in ("auto", "decl", "spec") for nfs in (1, 3)]
     st = explore(nz, ["noise"], 1, sink, stats=st, name="noisy/noise-b1", pos_ok=lambda k, p, r: (p % 2 == 0 and p >= 28) if q else True,
-                 cap=None if q else st["executions"] + 30000)
+                 cap=None if q else st["executions"] + 12000)
     dt = [job(D, g, "det", "adv", seeds[0], 30 + 15 * D, opts={"tol_mesh": 2.0**-4}, base=b) for D in Ds for g in ("lin", "log") for b in ("F", "S4")]
     st = explore(dt, ["ans"], 1, sink, stats=st, name="det/ans-b1", pos_ok=(lambda k, p, r: p < 14) if q else None)
     sw = sweep_jobs(lambda D, m, o: job(D, "lin", m, "sphere_in", seeds[0], 45 if m == "det" else 64, nfs=o.pop("noise_final_samples", 2), opts=o), q, modes=("det", "decl", "spec"))
